@@ -178,6 +178,9 @@ func (ctx *Ctx) contractOf(fn *ssa.Function) *Contract {
 				c.Ensures = append(c.Ensures, sc.Ensures...)
 				c.Assumes = append(c.Assumes, sc.Assumes...)
 				c.Defines = append(c.Defines, sc.Defines...)
+				for n, invs := range sc.Invs {
+					c.Invs[n] = append(c.Invs[n], invs...)
+				}
 				if c.Assigns == nil && sc.Assigns != nil {
 					c.Assigns = sc.Assigns
 				}
@@ -310,6 +313,9 @@ func (ctx *Ctx) synthContract(fn *ssa.Function) *Contract {
 		c.Ensures = append(c.Ensures, sch.C.Ensures...)
 		c.Assumes = append(c.Assumes, sch.C.Assumes...)
 		c.Defines = append(c.Defines, sch.C.Defines...)
+		for n, invs := range sch.C.Invs {
+			c.Invs[n] = append(c.Invs[n], invs...)
+		}
 		if sch.C.Assigns != nil && c.Assigns == nil {
 			c.Assigns = sch.C.Assigns
 		}
@@ -589,6 +595,9 @@ func (ctx *Ctx) directWrites(fn *ssa.Function) (map[string]bool, []*ssa.Function
 							ws[p] = true
 						}
 						continue
+					}
+					if ctx.isAbsMethod(cc.Method) {
+						continue // abstract pure method: no effects (checked by checkAbsMethods)
 					}
 					if ct, ok := ctx.devirtT[typeKeyFull(cc.Value.Type())]; ok {
 						if f := ctx.prog.LookupMethod(ct, cc.Method.Pkg(), cc.Method.Name()); f != nil {
